@@ -24,9 +24,14 @@
    readable as a condition -- Python leaves an exhausted `range` without looking at the condition, the ONNX Loop reads
    the condition before it looks at the trip count (with a trip count of 0 and a non-boolean condition the graph fails
    and the script does not).
-   NOT proved:
-   use_operators / inline_const / skip_initializers (model + correspondence only; one refutation below); attribute
-   parameters.  The way back through the converter: Props/C13_roundtrip.v. *)
+   use_operators (session 6, C13_export_nested_ops_sound_partial): the same statement with the option on -- a node of the
+   operator table is printed `o = a <sym> b`; side condition op_line_okb (inside nested_ops_okb): such a node is the
+   default-domain operator with two operands, one output and no attribute, and the converter's table reads the symbol
+   back as this operator.  The exporter itself looks at the operator NAME only: C13_export_foreign_domain_operator is a
+   node of another domain called "Add" that is printed as `x + x` (outside the class; documented limit of the exporter).
+   skip_initializers: Props/C13_optsem.v.  inline_const: literal and line level only (Props/C13_inline.v, C13_options.v).
+   NOT proved: a whole-program statement with inline_const on; attribute parameters; bodies reading their condition
+   input.  The way back through the converter: Props/C13_roundtrip.v. *)
 From Coq Require Import List String ZArith.
 Import ListNotations.
 Require Import OV.Gen.ExportTables OV.Export.Cleanup OV.Graph.Syntax OV.Graph.Names OV.Graph.Sem OV.Script.Syntax OV.Script.PySem
@@ -61,6 +66,39 @@ Theorem C13_export_nested_sound_partial :
       end.
 Proof. exact export_cf_sound. Qed.
 Print Assumptions C13_export_nested_sound_partial.
+
+Theorem C13_export_nested_ops_sound_partial :
+  forall (V : Type) sem truth trip of_nat of_bool limit globals kw prename rename infun,
+    (forall v, sem "" "Identity" [] [Some v] = Some [v]) -> (forall b, truth (of_bool b) = Some b) ->
+    forall brk,
+    (forall v b, truth v = Some b -> exists r, sem "" "Not" [] [Some v] = Some [r] /\ truth r = Some (negb b)) ->
+    (brk = true -> forall v, exists b, truth v = Some b) ->
+    forall use_ops fname ivals g f sk,
+    export_cf kw prename rename infun use_ops None false fname ivals g = Some (f, sk) ->
+    nested_ops_okb kw prename rename infun brk use_ops ivals g = true ->
+    forall fp fg xs, depth_graph g <= S fp -> depth_graph g <= S fg ->
+      eval_script V sem truth trip of_nat limit globals (S (S fp)) f xs =
+      match init_env V sem ivals with
+      | Some outer => eval_graph V sem truth trip of_nat of_bool limit (S (S fg)) outer g xs
+      | None => None
+      end.
+Proof. exact export_cf_ops_sound. Qed.
+Print Assumptions C13_export_nested_ops_sound_partial.
+
+Theorem C13_export_nested_ops_example :
+  nested_ops_okb kwlist (cleanup kwlist) (cleanup kwlist) false false (Some true) iv_nested g_nested = true /\
+  exists f, export_cf kwlist (cleanup kwlist) (cleanup kwlist) false (Some true) None false "g" iv_nested g_nested = Some (f, []) /\
+            In (SAssign "y" (EBin "Sub" (EVar "r_0") (EVar "x"))) (f_body f) /\
+            zscript2 f [(-3)%Z] = Some [94%Z] /\ zscript2 f [5%Z] = Some [(-10)%Z].
+Proof. exact export_nested_ops_example. Qed.
+Print Assumptions C13_export_nested_ops_example.
+
+Theorem C13_export_foreign_domain_operator :
+  exists f, export_cf kwlist (cleanup kwlist) (cleanup kwlist) false (Some true) None false "g" [] g_foreign_add = Some (f, []) /\
+            f_body f = [SAssign "y" (EBin "Add" (EVar "x") (EVar "x")); SReturn [EVar "y"]] /\
+            nested_ops_okb kwlist (cleanup kwlist) (cleanup kwlist) false false (Some true) [] g_foreign_add = false.
+Proof. exact export_foreign_domain_operator. Qed.
+Print Assumptions C13_export_foreign_domain_operator.
 
 (* non-vacuity: an If whose else branch contains a while loop reading an outer value and an initializer; dotted names
    and a keyword; nested_okb holds, the export is the expected program, both sides give 94 on -3 and -10 on 5 *)
